@@ -81,6 +81,9 @@ def plan(tier, seed, scale=1.0):
     ints = values.boundary_ints()
     for i in range(0, len(ints), 16):
         units.append({'kind': 'ints', 'ints': [str(x) for x in ints[i:i + 16]]})
+    fl = values.boundary_floats()
+    for i in range(0, len(fl), 32):
+        units.append({'kind': 'floats', 'floats': [values.fspec(x)['f'] for x in fl[i:i + 32]]})
     for n in values.boundary_lens():
         for fam, spec in values.len_specs(n):
             units.append({'kind': 'len', 'family': fam, 'spec': spec, 'n': n, 'tier': tier, 'seed': seed})
@@ -101,7 +104,8 @@ def selftest_units(tier, seed):
     return [{'kind': 'random', 'seed': seed, 'first': 0, 'count': 40},
             {'kind': 'sequences', 'seed': seed, 'first': 0, 'count': 300},
             {'kind': 'len', 'family': 'map', 'spec': {'M': 17}, 'n': 17, 'tier': 'quick', 'seed': seed},
-            {'kind': 'ints', 'ints': ['-33', '255', '65536']}]
+            {'kind': 'ints', 'ints': ['-33', '255', '65536']},
+            {'kind': 'floats', 'floats': ['3ff0000000000001', '47efffffe0000000']}]
 
 
 # ---------------------------------------------------------------- one unit
@@ -618,6 +622,13 @@ def _run_unit(unit):
                                 'reference_encodings_decoded': {o: e.hex() for o, e in all_choices(x0)},
                                 'stream_cut_after_bytes': list(range(len(U.dumps(x0)))),
                                 'expected_at_every_cut': 'InsufficientDataException'})
+    elif kind == 'floats':
+        rng = prng.rng('c14-floats')
+        for h in unit['floats']:
+            run_value(acc, {'f': h}, 'quick', rng, True)
+            run_value(acc, {'m': [[{'f': h}, {'f': h}]]}, 'quick', rng, False, nalt=1)
+        acc.probes['double_next_to_a_single'] = acc.probes.get('double_next_to_a_single', 0) + len(unit['floats'])
+        acc.samples.append({'kind': 'floats', 'value_hex': unit['floats'][0], 'real_encoding_hex': U.dumps(values.build(unit['floats'] and {'f': unit['floats'][0]})).hex()})
     elif kind == 'len':
         rng = prng.rng('c14-len', unit['seed'], unit['family'], unit['n'])
         full = unit['tier'] == 'thorough' and unit['family'] in ('str', 'str-mb', 'bin', 'ext')
